@@ -41,7 +41,9 @@ def oracle_retry_timing(o, program, refres, exact):
             if gap < delay - EPS:
                 out.append(('retry-too-early', f'{nid}: attempt {exp[i]["attempt"]} started {gap}s after the failed '
                                                f'attempt, delay={delay}'))
-            elif exact and gap > delay + EPS:
+            elif exact and idx[nid]['mode'] not in ('thread', 'process') and gap > delay + EPS:
+                # (for executor modes the engine learns about the failure when the completion is delivered, which the
+                # schedule may place after other timers: only the lower bound applies there)
                 out.append(('retry-too-late', f'{nid}: attempt {exp[i]["attempt"]} started {gap}s after the failed '
                                               f'attempt, delay={delay}'))
     return out
@@ -263,10 +265,9 @@ def _events_one_manager(o, ev0, comp):
             mine = [b for b in nb if x['start']['seq'] < b['seq'] < hi]
             comps = x['completes']
             if not comps:
-                # an execution cut short by the end of the run may lack its complete
-                unfinished = any(b.get('outcome') is None for b in mine) or not mine
-                if not unfinished and o.outcome[0] == 'value':
-                    out.append(('missing-node-complete', f'{nid}: start without complete in a successful run'))
+                # an execution cut short by the end of the run may lack its complete (also in a successful run: nodes
+                # of a losing candidate may still be in flight). If its value HAD been consumed, the delivery rule
+                # below reports it.
                 continue
             forced_default = not mine and any(x['start']['seq'] < d['seq'] < hi for d in defaults.get(nid, []))
             # an attempt is finished for the engine when its body returned AND (executor modes) the completion was
